@@ -59,5 +59,5 @@ Init == t \in [ps : Tuples, grouping : {"flat", "left", "right"}]
 Next == UNCHANGED t
 Valid == t.grouping = "flat" \/ Len(t.ps) = 3
 Emit == Valid => PrintT(<<"REPLAY", ToJson(t)>>)
-ASSUME LawsHold == Laws
+\* mode M: MC_CachePolicy.tla assumes Laws
 =============================================================================
